@@ -561,8 +561,8 @@ func genC12(kind string) func(r *core.Rng) any {
 						offs[n-1] = 1
 					}
 					for i := 1; i < n; i++ { // strictly increasing (what Add does with equal offsets is not a subject here)
-						if offs[i] <= offs[i-1] {
-							offs[i] = offs[i-1] + 0.05
+						if offs[i] < offs[i-1]+0.01 {
+							offs[i] = math.Round((offs[i-1]+0.05)*100) / 100 // two decimals: no offsets an ulp apart
 						}
 						if offs[i] > 1 {
 							n = i
